@@ -59,6 +59,8 @@ where
     ) -> Result<(), GrevmError<DB::Error>> {
         let txid = self.scheduler_ctx.committed_idx().min(self.block_size.saturating_sub(1));
         // This flag only elects the single execution caller and never publishes scheduler data.
+        #[cfg(grevm_verif)]
+        crate::verif::p1("run_once_enter", txid as i64);
         self.started.compare_exchange(false, true, Ordering::Relaxed, Ordering::Relaxed).map_err(
             |_| GrevmError {
                 txid,
@@ -69,6 +71,8 @@ where
             },
         )?;
 
+        #[cfg(grevm_verif)]
+        crate::verif::p0("run_once_won");
         let started = Instant::now();
         self.metrics.record_block_start(self.block_size);
         let result = execute(started);
@@ -84,6 +88,19 @@ where
     ) -> Result<(), GrevmError<DB::Error>> {
         // `committed` is the authoritative committed boundary. Abort metadata selects whether the
         // remaining suffix is replayed or an unrecoverable error is returned.
+        #[cfg(grevm_verif)]
+        crate::verif::p2(
+            "post_execute",
+            committed.index() as i64,
+            match (self.is_aborted(), self.abort_reason.get()) {
+                (false, _) => crate::verif::NONE,
+                (true, Some(AbortReason::FatalEvmError(_))) => 0,
+                (true, Some(AbortReason::CommitError(_))) => 1,
+                (true, Some(AbortReason::ParallelError { .. })) => 2,
+                (true, Some(AbortReason::FallbackSequential)) => 3,
+                (true, None) => 4,
+            },
+        );
         if self.is_aborted() {
             match self.abort_reason.get() {
                 Some(AbortReason::FatalEvmError(txid)) => {
@@ -129,6 +146,16 @@ where
     pub(super) fn abort(&self, abort_reason: AbortReason<DB::Error>) {
         // Preserve the first abort cause. Publish it before the release-store so acquire readers
         // that observe `abort` can also observe the reason.
+        #[cfg(grevm_verif)]
+        {
+            let (kind, txid) = match &abort_reason {
+                AbortReason::FatalEvmError(txid) => (0, *txid as i64),
+                AbortReason::CommitError(e) => (1, e.txid as i64),
+                AbortReason::ParallelError { txid, .. } => (2, *txid as i64),
+                AbortReason::FallbackSequential => (3, crate::verif::NONE),
+            };
+            crate::verif::n3("abort", kind, txid, self.abort_reason.get().is_none() as i64);
+        }
         self.abort_reason.get_or_init(|| abort_reason);
         self.cancel();
     }
@@ -139,6 +166,8 @@ where
     /// [`AbortReason`]—remains the authoritative failure signal.
     pub(super) fn cancel(&self) {
         self.abort.store(true, Ordering::Release);
+        #[cfg(grevm_verif)]
+        crate::verif::p0("cancel");
         self.finality_wait.notify();
         self.commit_wait.notify();
     }
